@@ -810,3 +810,79 @@ Proof.
   unfold spec_hosts_nodes. rewrite Ee. apply in_map_iff. exists (hl_ip l). split; [reflexivity|].
   apply filter_In. split; [exact Hin|]. destruct Hfam as [-> | ->]; [reflexivity | rewrite Z.eqb_refl; apply orb_true_r].
 Qed.
+
+(* ------------------------------------------------------------------------------------ *)
+(* which names are IPv4 literals: the concrete parser                                    *)
+(* ------------------------------------------------------------------------------------ *)
+Lemma pton4_loop_sound s : forall tmp in_octet acc l,
+  0 <= tmp <= 255 -> Forall is_byte acc ->
+  pton4_loop s tmp in_octet acc = Some l -> Forall is_byte l /\ (length l <= 4)%nat.
+Proof.
+  induction s as [|c rest IH]; intros tmp io acc l Ht Hacc; cbn [pton4_loop].
+  - destruct io; [|discriminate]. destruct (Nat.ltb_spec (length acc) 4); [|discriminate].
+    intros [= <-]. split; [apply Forall_app; split; [exact Hacc | constructor; [unfold is_byte; lia | constructor]]|].
+    rewrite app_length. cbn. lia.
+  - destruct ((48 <=? c) && (c <=? 57)) eqn:Ed.
+    + apply andb_prop in Ed. destruct Ed as [E1 E2]. apply Z.leb_le in E1. apply Z.leb_le in E2.
+      destruct (Z.gtb_spec (tmp * 10 + (c - 48)) 255); [discriminate|]. apply IH; [lia | exact Hacc].
+    + destruct (c =? 46); [|discriminate]. destruct io; [|discriminate].
+      destruct (Nat.ltb_spec (length acc) 4); [|discriminate].
+      apply IH; [lia|]. apply Forall_app. split; [exact Hacc | constructor; [unfold is_byte; lia | constructor]].
+Qed.
+
+(* a literal is four octets, each 0..255 *)
+Theorem inet_pton4_sound name a : inet_pton4 name = Some a -> length a = 4%nat /\ Forall is_byte a.
+Proof.
+  unfold inet_pton4. destruct (pton4_loop name 0 false []) as [l|] eqn:E; [|discriminate]. intros [= <-].
+  destruct (pton4_loop_sound name 0 false [] l ltac:(lia) (Forall_nil _) E) as [Hb Hl].
+  split; [rewrite app_length, repeat_length; destruct (length l) as [|[|[|[|[|n]]]]]; cbn; lia|].
+  apply Forall_app. split; [exact Hb|]. apply Forall_forall. intros x Hx. apply repeat_spec in Hx. subst. unfold is_byte. lia.
+Qed.
+
+(* the decimal spelling of an octet is read back as that octet *)
+Lemma pton4_octet b : is_byte b -> forall rest acc,
+  pton4_loop (dec_digits b ++ rest) 0 false acc = pton4_loop rest b true acc.
+Proof.
+  intros Hb. unfold is_byte in Hb.
+  assert (H : forall n, (n < 256)%nat -> forall rest acc,
+             pton4_loop (dec_digits (Z.of_nat n) ++ rest) 0 false acc = pton4_loop rest (Z.of_nat n) true acc).
+  { intros n Hn. do 256 (destruct n as [|n]; [intros; reflexivity|]). lia. }
+  rewrite <- (Z2Nat.id b) by lia. apply H. lia.
+Qed.
+
+Theorem inet_pton4_dotted_quad a b c d : is_byte a -> is_byte b -> is_byte c -> is_byte d ->
+  inet_pton4 (dec_digits a ++ [46] ++ dec_digits b ++ [46] ++ dec_digits c ++ [46] ++ dec_digits d) = Some [a; b; c; d].
+Proof.
+  intros Ha Hb Hc Hd. unfold inet_pton4.
+  rewrite (pton4_octet a Ha). cbn [app pton4_loop]. change ((48 <=? 46) && (46 <=? 57)) with false. cbn [Z.eqb length Nat.ltb Nat.leb app].
+  change (46 =? 46) with true. cbv iota.
+  rewrite (pton4_octet b Hb). cbn [app pton4_loop]. change ((48 <=? 46) && (46 <=? 57)) with false. change (46 =? 46) with true. cbn [length Nat.ltb Nat.leb app]. cbv iota.
+  rewrite (pton4_octet c Hc). cbn [app pton4_loop]. change ((48 <=? 46) && (46 <=? 57)) with false. change (46 =? 46) with true. cbn [length Nat.ltb Nat.leb app]. cbv iota.
+  replace (dec_digits d) with (dec_digits d ++ []) by apply app_nil_r.
+  rewrite (pton4_octet d Hd). reflexivity.
+Qed.
+
+(* names that only look like literals are not literals; odd spellings of literals are *)
+Example near_literals_rejected :
+  map inet_pton4 [[49;48;46;50;48;46;51;48;46;52;48;48];   (* 10.20.30.400 *)
+                  [57;57;57;46;49;46;49;46;49];             (* 999.1.1.1 *)
+                  [49;46;50;46;51;46];                      (* 1.2.3. *)
+                  [49;46;46;50;46;51];                      (* 1..2.3 *)
+                  [46;49;46;50;46;51];                      (* .1.2.3 *)
+                  [49;46;50;46;51;46;52;46;53]]             (* 1.2.3.4.5 *)
+  = [None; None; None; None; None; None].
+Proof. vm_compute. reflexivity. Qed.
+Example leading_zeros_accepted :
+  inet_pton4 [48;49;48;46;48;48;49;46;48;48;50;46;48;48;51] = Some [10; 1; 2; 3].   (* 010.001.002.003 *)
+Proof. vm_compute. reflexivity. Qed.
+
+(* the literal path of ares_getaddrinfo with the concrete parser: the node is the parsed address *)
+Theorem literal_node_concrete name family port flags p6 ai a :
+  fake_addrinfo name family port flags (inet_pton4 name) p6 = FAddr ai ->
+  ai_nodes ai = [mkNode LEG_AF_INET a port 0] ->
+  inet_pton4 name = Some a /\ length a = 4%nat /\ Forall is_byte a /\ family <> LEG_AF_INET6.
+Proof.
+  intros Hf Hn. destruct (literal_node name family port flags (inet_pton4 name) p6 ai Hf) as (a' & [(Hn' & Hp & Hfam) | (Hn' & _)]).
+  - rewrite Hn in Hn'. injection Hn' as ->. split; [exact Hp|]. destruct (inet_pton4_sound name a' Hp). auto.
+  - rewrite Hn in Hn'. discriminate Hn'.
+Qed.
